@@ -38,6 +38,8 @@ var docTexts = []struct {
 	{"name-twice", []string{"$T $Ts are counted."}},
 	{"name-twice-as-word", []string{"$T $T of measure, $T again."}},
 	{"longer-word-with-name-prefix", []string{"$Taque word, not the name."}},
+	// a gofmt-style code block (lines indented with a tab) whose lines start with the tag markers: doc text, not tags
+	{"code-block-with-marker-lines", []string{"shows a patch and a decorator:", "", "\t+added line", "\t@@ -1,2 +1,2 @@", "\t-removed line", "\t@name(\"arg\")"}},
 	{"leading-name-then-odd-spacing", []string{"$T  has two blanks.  Two more,\ta tab, a no-break\u00a0space and an ideographic\u3000space.", "a second line   with runs of blanks"}},
 }
 
@@ -68,6 +70,8 @@ func comment(text int, name, indent string) string {
 		l = strings.ReplaceAll(l, "$T", name)
 		if l == "" {
 			b.WriteString(indent + "//\n")
+		} else if strings.HasPrefix(l, "\t") {
+			b.WriteString(indent + "//" + l + "\n") // the form gofmt gives a code block
 		} else {
 			b.WriteString(indent + "// " + l + "\n")
 		}
